@@ -5,7 +5,14 @@ package main
 
 import (
 	"fmt"
+	"os"
 	"strconv"
+	"strings"
+	"sync"
+	"sync/atomic"
+	"time"
+
+	"github.com/ryogrid/SamehadaDB/lib/storage/page/skip_list_page"
 
 	"verif/harness/internal/trace"
 )
@@ -95,6 +102,108 @@ func sqlC14(args []string) error {
 				}
 				s.scan(t)
 			}
+		}
+	}
+	// concurrent windows: goroutines insert rows with 1 100-byte strings into a table whose string column has a skip
+	// list index (three entries fill a node), so that inserters meet on full nodes - one splits, the other's validation
+	// fails and it starts over.  One event per window with the pinned pages before and after it.
+	nwin := nscen / 10
+	if nwin < 4 {
+		nwin = 4
+	}
+	if envStart() > 0 {
+		nwin = 0
+	}
+	for w := 0; w < nwin; w++ {
+		s, err := newRun(tw, ctxName("C14"), 4000)
+		if err != nil {
+			return err
+		}
+		t := &tableDef{name: fmt.Sprintf("cw%d", w), cols: []string{"int", "varchar"}, names: []string{"k", "p"}, kinds: []string{"skiplist", "skiplist"}} // (k indexed too: the interleaved DELETE must not scan into the row being inserted)
+		s.createAPI(t)
+		pad := strings.Repeat("w", 1100)
+		pb := s.e.Pins()
+		var wg sync.WaitGroup
+		var failed int32
+		if w%2 == 1 {
+			// the same meeting made certain: one inserter; every time it is about to re-validate a node it found full
+			// (gate hook H8: it holds no latch there) another statement - the DELETE of the row inserted before -
+			// runs to completion, which changes the node in half of the cases
+			cur := int32(-1)
+			var gates, inner int32
+			skip_list_page.VerifGate = func(point string) {
+				c := atomic.LoadInt32(&cur)
+				if point != "validate" || c < 1 || atomic.AddInt32(&gates, 1)%2 == 0 || atomic.LoadInt32(&inner) != 0 {
+					return
+				}
+				atomic.StoreInt32(&inner, 1)
+				s.e.DB.ExecuteSQL(fmt.Sprintf("DELETE FROM %s WHERE k = %d;", t.name, c-1))
+				atomic.StoreInt32(&inner, 0)
+			}
+			res := "ok"
+			for i := 0; i < 60 && res == "ok"; i++ {
+				atomic.StoreInt32(&cur, int32(i))
+				done := make(chan error, 1)
+				go func() {
+					defer func() {
+						if x := recover(); x != nil {
+							done <- fmt.Errorf("panic: %v", x)
+						}
+					}()
+					err, _ := s.e.DB.ExecuteSQL(fmt.Sprintf("INSERT INTO %s(k, p) VALUES (%d, '%03d-%s');", t.name, i, i, pad))
+					done <- err
+				}()
+				select {
+				case err := <-done:
+					if err != nil {
+						res = "err:" + err.Error()
+					}
+				case <-time.After(60 * time.Second):
+					res = "hang"
+				}
+			}
+			skip_list_page.VerifGate = nil
+			s.emit(map[string]interface{}{"ev": "Window", "t": t.name, "res": res, "pb": pb, "pa": s.e.Pins(), "goroutines": 1, "statements": 60, "gates": int(gates)})
+			if res == "hang" {
+				tw.Flush()
+				tw.Close()
+				os.Exit(3)
+			}
+			continue
+		}
+		for g := 0; g < 8; g++ {
+			wg.Add(1)
+			go func(g int) {
+				defer wg.Done()
+				defer func() {
+					if recover() != nil {
+						atomic.AddInt32(&failed, 1)
+					}
+				}()
+				for i := 0; i < 20; i++ {
+					// neighbours in key order come from different goroutines
+					if err, _ := s.e.DB.ExecuteSQL(fmt.Sprintf("INSERT INTO %s(k, p) VALUES (%d, '%03d-%d-%s');", t.name, g*100+i, i, g, pad)); err != nil {
+						atomic.AddInt32(&failed, 1)
+					}
+				}
+			}(g)
+		}
+		done := make(chan struct{})
+		go func() { wg.Wait(); close(done) }()
+		res := "ok"
+		select {
+		case <-done:
+		case <-time.After(90 * time.Second):
+			res = "hang"
+		}
+		if failed != 0 && res == "ok" {
+			res = fmt.Sprintf("err:%d statements failed", failed)
+		}
+		s.emit(map[string]interface{}{"ev": "Window", "t": t.name, "res": res, "pb": pb, "pa": s.e.Pins(), "goroutines": 8, "statements": 160})
+		if res == "hang" {
+			tw.Flush()
+			tw.Close()
+			os.Exit(3)
 		}
 	}
 	return tw.Close()
